@@ -505,6 +505,10 @@ def finish(prop, tier, seed, level, res, rule, required=None, assumptions=None, 
         inconclusive.append("only %d distinct non-trivial cases" % distinct)
     if res.evals < 1:
         inconclusive.append("no evaluation was performed")
+    def _small(x, budget=6000):
+        t = json.dumps(x, ensure_ascii=False)
+        return x if len(t) <= budget else {"clipped_sample": t[:budget] + "…"}
+    res.samples = [_small(x) for x in res.samples]
     cov = {
         "evaluations": int(res.evals),
         "distinct_nontrivial": int(distinct),
